@@ -453,19 +453,21 @@ def step(ctx, u, op, pre, hist, known=frozenset()):
 
 def run_ex(ctx, p):
   which, depth, part, parts = p["universe"], p["depth"], p["part"], p["parts"]
+  record_from = p.get("record_from", 1)     # levels below are recomputed silently (another shard records them)
   u0 = build(which)
   alpha = alphabet(u0)
   s0 = u0.snapshot()
   init = u0.check()
   if init:
     raise RuntimeError(f"initial universe '{which}' is not well formed: {init[:3]}")
-  ctx.count("ex:alphabet", len(alpha) if part == 0 else 0)
+  first = part == 0 and record_from == 1
+  ctx.count("ex:alphabet", len(alpha) if first else 0)
   visited = {wf.freeze(s0)}
   frontier = [([], s0, False)]
   null = NullCtx()
   for level in range(1, depth + 1):
     nxt = []
-    rec = ctx if (level > 1 or part == 0) else null
+    rec = ctx if (level >= record_from and (level > 1 or part == 0)) else null
     for prefix, pre, nt in frontier:
       for op in alpha:
         u = build(which)
@@ -488,12 +490,12 @@ def run_ex(ctx, p):
           rec.count("ex:state-already-expanded")
           continue
         visited.add(key)
+        rec.count("ex:states-to-expand")
         nxt.append((hist, res.post, nontriv))
     if level == 1:
-      ctx.count("ex:frontier-after-level1", len(nxt) if part == 0 else 0)
+      ctx.count("ex:frontier-after-level1", len(nxt) if first else 0)
       nxt = nxt[part::parts]
     frontier = nxt
-  ctx.count("ex:states-expanded", len(visited) if part == 0 else max(0, len(visited) - 1))
 
 
 # ------------------------------------------------------------------------------------------------------------------
@@ -661,9 +663,15 @@ def run_rw(ctx, p):
 # ------------------------------------------------------------------------------------------------------------------
 
 def plan(tier, seed):
-  depth = 3 if tier == "thorough" else 2
   walks = 200000 if tier == "thorough" else 2000
-  shards = [{"kind": "ex", "universe": "reduced", "depth": depth, "part": i, "parts": N_SHARDS} for i in range(N_SHARDS)]
+  if tier == "thorough":
+    # the first shard records every history of length <= 2 (so that the first witness of a mechanism is a shortest one);
+    # the others recompute their slice of those silently and record the histories of length 3
+    shards = [{"kind": "ex", "universe": "reduced", "depth": 2, "part": 0, "parts": 1}]
+    shards += [{"kind": "ex", "universe": "reduced", "depth": 3, "part": i, "parts": N_SHARDS, "record_from": 3}
+               for i in range(N_SHARDS)]
+  else:
+    shards = [{"kind": "ex", "universe": "reduced", "depth": 2, "part": i, "parts": N_SHARDS} for i in range(N_SHARDS)]
   per = walks // N_SHARDS
   for i in range(N_SHARDS):
     shards.append({"kind": "rw", "universe": "full", "lo": i * per, "hi": (i + 1) * per})
